@@ -200,12 +200,18 @@ def to_chain_structure(qc, setup="linear"):
                 i = start
                 while i < end:
                     if start + end - i - i == 1 and (end - start + 1) % 2 == 0:
-                        qc_t.add_gate(gate.name, [i, i + 1])
+                        qc_t.add_gate(
+                            gate.name, [i, i + 1], arg_value=gate.arg_value
+                        )
                     elif (start + end - i - i) == 2 and (
                         end - start + 1
                     ) % 2 == 1:
                         qc_t.add_gate("SWAP", [i, i + 1])
-                        qc_t.add_gate(gate.name, [i + 1, i + 2])
+                        qc_t.add_gate(
+                            gate.name,
+                            [i + 1, i + 2],
+                            arg_value=gate.arg_value,
+                        )
                         qc_t.add_gate("SWAP", [i, i + 1])
                         i += 1
                     else:
@@ -223,14 +229,20 @@ def to_chain_structure(qc, setup="linear"):
                         N + start - end - i - i == 1
                         and (N - end + start + 1) % 2 == 0
                     ):
-                        temp.add_gate(gate.name, [i, i + 1])
+                        temp.add_gate(
+                            gate.name, [i, i + 1], arg_value=gate.arg_value
+                        )
 
                     elif (
                         N + start - end - i - i == 2
                         and (N - end + start + 1) % 2 == 1
                     ):
                         temp.add_gate("SWAP", [i, i + 1])
-                        temp.add_gate(gate.name, [i + 1, i + 2])
+                        temp.add_gate(
+                            gate.name,
+                            [i + 1, i + 2],
+                            arg_value=gate.arg_value,
+                        )
                         temp.add_gate("SWAP", [i, i + 1])
                         i += 1
 
@@ -251,6 +263,7 @@ def to_chain_structure(qc, setup="linear"):
                                 (end + gate.targets[0]) % N,
                                 (end + gate.targets[1]) % N,
                             ],
+                            arg_value=gate.arg_value,
                         )
                     elif j == N - end - 2:
                         qc_t.add_gate(
@@ -259,6 +272,7 @@ def to_chain_structure(qc, setup="linear"):
                                 (end + gate.targets[0]) % N,
                                 (end + gate.targets[1]) % N,
                             ],
+                            arg_value=gate.arg_value,
                         )
                     else:
                         qc_t.add_gate(
@@ -267,6 +281,7 @@ def to_chain_structure(qc, setup="linear"):
                                 (end + gate.targets[0]) % N,
                                 (end + gate.targets[1]) % N,
                             ],
+                            arg_value=gate.arg_value,
                         )
                     j = j + 1
 
